@@ -158,9 +158,11 @@ def replay_record(ctx, table, rec):
 TRACE_EVS = {"init", "rec", "flush", "autoflush", "rotate", "clear", "conf", "restart", "search"}
 
 
-def run_history(ctx, hist, nrec, mem=None):
+def run_history(ctx, hist, nrec, mem=None, big=False):
     tout = ctx.path("c07_trace_%d.ndjson" % hist)
     env = {"VERIF_OUT": tout, "VERIF_C07_HIST": str(hist), "VERIF_C07_RECORDS": str(nrec)}
+    if big:
+        env["VERIF_C07_BIG"] = "1"
     if mem is not None:
         env["VERIF_C07_MEM"] = str(mem)
     rc, out = ctx.go_test(PKG, FILES, "^TestZZVerifC07Trace$", env=env, timeout=600)
@@ -323,7 +325,11 @@ def _run_bindings(ctx):
         # One history per tier is forced to a small memory so that searches
         # cross the memory/file/rotated-file boundaries often.
         mem = 7 if hst == 0 else None
-        rows_b, sb = run_history(ctx, hst, nrec, mem=mem)
+        # One history of the thorough tier grows its files beyond the reader's 1.6 MB buffer.
+        big = (not ctx.quick) and hst == 1
+        if big:
+            mem = 200
+        rows_b, sb = run_history(ctx, hst, nrec, mem=mem, big=big)
         if sb.get("discard"):
             ctx.log("history %d discarded: %s" % (hst, sb["discard"]))
             tflaky += 1
@@ -336,7 +342,7 @@ def _run_bindings(ctx):
         if binding_demo is None and not verdict["stuck"]:
             binding_demo = corrupted_line_is_rejected(ctx, lines, verdict)
         tlines += len(lines)
-        tbytes += sb.get("bytes", 0)
+        tbytes = max(tbytes, sb.get("bytes", 0))
         if hst == 0:
             tsamples = [lines[i] for i in (1, len(lines) // 2) if i < len(lines)]
         bad_lines = list(verdict["bad"])
@@ -350,7 +356,7 @@ def _run_bindings(ctx):
                 tflaky += 1
                 continue
             key = classify_query(q, e["r"])
-            rec = {"dir": "B", "what": "query", "seed": ctx.seed, "hist": hst, "nrec": nrec, "mem": mem, "line": ln,
+            rec = {"dir": "B", "what": "query", "seed": ctx.seed, "hist": hst, "nrec": nrec, "mem": mem, "big": big, "line": ln,
                    "q": q, "got": e["r"], "projection": e["s"]}
             if key and vlib.known_findings().get((ctx.prop, key), {}).get("status") == "open":
                 ctx.disagreement(key, rec, describe_query(q, e["r"]))
@@ -361,7 +367,7 @@ def _run_bindings(ctx):
         unknown = unknown[:20]
         if unknown or stuck:
             # Reproduce: the driver is deterministic in (seed, history); run it again.
-            rows2, sb2 = run_history(ctx, hst, nrec, mem=mem)
+            rows2, sb2 = run_history(ctx, hst, nrec, mem=mem, big=big)
             lines2, verdict2, wants2 = validate_history(ctx, hst, rows2)
             for ln, key, rec in unknown:
                 if ln in verdict2["bad"] and ln <= len(lines2) and lines2[ln - 1]["p"] == lines[ln - 1]["p"]:
@@ -372,7 +378,7 @@ def _run_bindings(ctx):
             if stuck:
                 if verdict2["stuck"] == stuck:
                     e = lines[stuck - 1]
-                    rec = {"dir": "B", "what": "state", "seed": ctx.seed, "hist": hst, "nrec": nrec, "mem": mem, "line": stuck,
+                    rec = {"dir": "B", "what": "state", "seed": ctx.seed, "hist": hst, "nrec": nrec, "mem": mem, "big": big, "line": stuck,
                            "event": {k: e[k] for k in ("ev", "name", "cli", "reason", "ms", "en", "an")},
                            "projection": e["s"], "spec_before": verdict["at"]}
                     ctx.disagreement(None, rec, "trace line %d (%s): no successor of the spec state %s projects onto the real state %s" % (
@@ -403,7 +409,7 @@ def _run_bindings(ctx):
         "requests_compared": summ["queries"], "walks_discarded": summ["discards"], "flaky": summ["flaky"] + tflaky,
         "payload_shapes": psum[0]["shapes"], "payload_entries_compared": psum[0]["n"],
         "trace_histories": nhist, "trace_records_per_history": nrec, "trace_lines": tlines,
-        "trace_lines_rejected": tbad, "trace_file_bytes": tbytes,
+        "trace_lines_rejected": tbad, "trace_max_file_bytes_at_end": tbytes,
         "truncated_by_known_finding": 0,
         "binding_demo": binding_demo,
         "exhaustive": exhaustive,
@@ -428,7 +434,7 @@ def replay(ctx, path):
         return 0 if res.get("admissible") else 1
     if rec.get("dir") == "B":
         ctx.seed = rec["seed"]
-        rows, sb = run_history(ctx, rec["hist"], rec["nrec"], mem=rec.get("mem"))
+        rows, sb = run_history(ctx, rec["hist"], rec["nrec"], mem=rec.get("mem"), big=rec.get("big", False))
         lines, verdict, wants = validate_history(ctx, rec["hist"], rows)
         ln = rec["line"]
         still = ln in verdict["bad"] or verdict["stuck"] == ln
